@@ -27,6 +27,15 @@ CHECKS = {
     "C14": dict(level="proof", technique="term evaluation of each comparison operator to a boolean formula over same-slot comparisons + exhaustive 3^n slot-relation enumeration against the lexicographic specification; hash read-set/shape analysis",
                 text="For every quantity, tensor, Dimensions, Dimension and model type and every numeric type: six operators exist and each equals the lexicographic order on all 3^n abstract cases (complete on non-NaN values because only same-slot comparisons occur, which the check enforces); every std::hash reads the value only through std::hash of its components.",
                 note="trusted: clang front end; libstdc++ std::hash<floating> contract (+0/-0 hash equally)", ref="3/C14"),
+    "C03": dict(level="proof", technique="units-of-measure type checking: every relation body evaluated to terms and interpreted in a dimension domain (Q^7 exponent vectors, polymorphic zero); operator signatures checked from resolved types; clang diagnostics for well-formedness",
+                text="Dimensional homogeneity is exactly what the dimension domain computes, so the decided part is the whole statement: one obligation per relation body and per operator signature, for all three numeric types, all inputs.",
+                note="trusted: clang front end; RelatedDimensions tables (checked against unit symbols by C06); the evaluator", ref="3/C03"),
+    "C04": dict(level="proof", technique="exact-tree abstract interpretation: each operator / compound assignment / twin constructor evaluated interprocedurally to the operation tree of every result slot, compared with one IEEE operation on the corresponding operand slots in written order",
+                text="A single IEEE-754 operation is correctly rounded by definition, so showing each result slot is exactly one +,-,*,/ node on the right operands (in order) decides the statement for IEEE evaluation; compound assignments and twins are compared tree-for-tree.",
+                note="trusted: clang front end, evaluator; excludes -ffast-math builds (stated)", ref="3/C04"),
+    "C16": dict(level="proof", technique="exact-tree abstract interpretation of every converting constructor/assignment for each ordered pair of numeric types: slot i = one cast of source slot i (directions: then the normalisation formula, decided algebraically)",
+                text="1152 obligations (96 classes x 6 ordered pairs x {construct, assign}); 'one cast, same slot, nothing else' is a shape property and is decided exactly.",
+                note="trusted: clang front end, evaluator, sympy for the direction normalisation identity", ref="3/C16"),
 }
 
 NOT_YET = {
